@@ -21,7 +21,7 @@ ASSUMPTIONS = ["pixel (i,j) = [b0+i*ps, b0+(i+1)*ps] x [p0+j*ps, p0+(j+1)*ps] fr
                "mass by direct integration of the density: exact overlap (uniform), product of 1-D normal masses (axis-aligned), "
                "quad over the birth side of phi(x)*[conditional normal mass] (correlated, epsabs 1e-13); never bivariate-CDF inclusion-exclusion",
                "tolerance 1e-7*sum|w| (numerical-integration accuracy named by the statement)"]
-REQUIRED_NOTES = ["large-cases", "narrow-int-cases", "rescaled-unit-cases"]
+REQUIRED_NOTES = ["large-cases", "narrow-int-cases", "rescaled-unit-cases", "parallel-collection-cases"]
 TECHNIQUE = "runtime monitoring: postcondition monitor on PersistenceImager.transform with a direct-integration pixel-mass oracle"
 
 
@@ -104,9 +104,49 @@ def narrow_int_case(ctx, k, rng):
         ctx.exception("transform returns", e, dtype=dn)
 
 
+def parallel_collection_case(ctx, k, rng):
+    """a collection of diagrams of different sizes through transform(..., n_jobs=2 / 3) (threads: no process start-up): the image at
+    position i must be the weighted kernel mass of diagram i"""
+    import joblib
+    geom = imgcfg.gen_geometry(rng)
+    while True:
+        kkw, kdesc = imgcfg.gen_kernel(rng, geom["pixel_size"], high_corr=False)
+        if kdesc["kind"] != "gaussian" or kdesc["cov"][0][1] == 0.0:
+            break
+    kcls = kernel_class(kdesc)
+    ctx.begin(k, "parallel-collection/" + kcls, None)
+    ctx.note("parallel-collection-cases")
+    try:
+        P = Imager(**geom, **kkw)
+        pub = {"birth_range": tuple(P.birth_range), "pers_range": tuple(P.pers_range), "pixel_size": P.pixel_size}
+        sizes = rng.permutation([1, 2, 3, 5, 8, 13, 21])[: int(rng.integers(3, 7))]
+        coll = [imgcfg.gen_points(rng, int(s), pub) for s in sizes]
+        nj = int(rng.choice([2, 2, 3]))
+        ctx.set_payload({"ctor": {**geom, "kernel": kdesc}, "sizes": [int(s) for s in sizes], "n_jobs": nj, "collection": coll})
+        ctx.ran()
+        with joblib.parallel_backend("threading"):
+            imgs = P.transform(coll, skew=False, n_jobs=nj)
+        nb, npx = (int(x) for x in P.resolution)
+        g = {"b0": P.birth_range[0], "p0": P.pers_range[0], "ps": P.pixel_size, "nb": nb, "np": npx}
+        worst, where = 0.0, None
+        for i, (bp, img) in enumerate(zip(coll, imgs)):
+            w = np.asarray(bp[:, 1], float)
+            want = OI.expected_image_separable(bp, w, kdesc, g)
+            e = float(np.abs(np.asarray(img) - want).max()) / max(float(np.sum(np.abs(w))), 1e-300)
+            if e > worst:
+                worst, where = e, i
+        ctx.check("pixel == sum weight*mass [%s]" % kcls, len(imgs) == len(coll) and worst <= 1e-7, worst_relative=worst, position=where,
+                  sizes=[int(s) for s in sizes], n_jobs=nj)
+        ctx.mark_nontrivial(geom, kdesc, [c.tolist() for c in coll], nj)
+    except Exception as e:
+        ctx.exception("transform returns", e)
+
+
 def run_case(ctx, k, rng):
     if k % 53 == 9:
         return large_case(ctx, k, rng)
+    if k % 31 == 11:
+        return parallel_collection_case(ctx, k, rng)
     if k % 29 == 3:
         return narrow_int_case(ctx, k, rng)
     geom = imgcfg.gen_geometry(rng)
